@@ -51,9 +51,20 @@ def _ops_for(ctx, rng, n):
             ops.append(["upow", u, str(rng.randint(-3, 3)), MODE])
         elif r < .9:
             ops.append(["q_num", "pow", f"{a}@{u}", str(rng.randint(-3, 3)), MODE])
-        else:
-            k = rat(rng.choice([Fraction(3), Fraction(-7, 3), Fraction(1, 1000), Fraction(5, 2)]))
+        elif r < .95:
+            # a plain number of any kind: int, float, Fraction, both Decimals
+            k = _qty.kind_tok(rng, rng.choice([Fraction(3), Fraction(-7, 3), Fraction(1, 1000), Fraction(5, 2),
+                                               Fraction(1, 8), Fraction(-2), Fraction(0.1)]))
             ops.append(["q_num", rng.choice(["mul", "div", "rdiv"]), f"{a}@{u}", k, MODE])
+        else:
+            # a unit and a plain number (or an SI prefix)
+            if rng.random() < .3:
+                k = "K:" + rat(Fraction(10) ** rng.choice([-24, -9, -6, -3, -2, -1, 1, 2, 3, 6, 9, 21, 24]))
+                ops.append(["u_num", rng.choice(["mul", "rmul"]), u, k, MODE])
+            else:
+                k = _qty.kind_tok(rng, rng.choice([Fraction(3), Fraction(-7, 3), Fraction(1, 1000), Fraction(5, 2),
+                                                   Fraction(1, 8), Fraction(0.1), Fraction(0)]))
+                ops.append(["u_num", rng.choice(["mul", "rmul", "div", "rdiv"]), u, k, MODE])
     return ops
 
 
@@ -201,7 +212,7 @@ def oracle(case, impl):
             a, _, u = o[2].rpartition("@")
             x = ctx.grid(u, _qty.tok_value(a), MODE)
             su, du = _refdim(ctx, u)
-            k = parse_rat(o[3])
+            k = _qty.tok_value(o[3])
             if o[1] == "mul":
                 exp = "ok " + ctx.qty(ctx.grid(u, x * k, MODE), u)
                 msg = None if out == exp else f"{what} -> {out}, expected {exp}"
@@ -220,6 +231,18 @@ def oracle(case, impl):
                     msg = None if out.startswith("err ") else f"{what} -> {out}"
                 elif ctx.quantum(u) is None:
                     msg = _qty.check_value_result(ctx, MODE, out, (x * su) ** n, _qty.dim_pow(du, n), what)
+        elif o[0] == "u_num":
+            u = o[2]
+            su, du = _refdim(ctx, u)
+            k = _qty.tok_value(o[3])
+            if o[1] in ("mul", "rmul"):
+                exp = "ok " + ctx.qty(ctx.grid(u, k, MODE), u)
+                msg = None if out == exp else f"{what} -> {out}, expected {exp}"
+            elif o[1] == "div":
+                exp = "err ZeroDivisionError" if k == 0 else "ok " + ctx.qty(ctx.grid(u, 1 / k, MODE), u)
+                msg = None if out == exp else f"{what} -> {out}, expected {exp}"
+            else:
+                msg = _qty.check_value_result(ctx, MODE, out, k / su, _qty.dim_pow(du, -1), what)
         if msg:
             fails.append({"site": "prod:" + o[0] + ":" + str(o[1]), "msg": msg})
     return fails
